@@ -278,6 +278,26 @@ def value_sets(tier):
     return ints, floats, strs, byts
 
 
+def check_bool_text(t: Tally):
+    """A boolean value prints as the truth value it stands for, whatever number it was built from (a masked status bit, a count)."""
+    from space_packet_parser import common
+    for x in (0, 1, 2, -1, 255, 2 ** 70, 4, True, False):
+        try:
+            p = common.BoolParameter(x, x)
+        except Exception:  # noqa: BLE001
+            continue  # not every number needs to be accepted
+        want = repr(bool(x))
+        forms = {"repr": lambda: repr(p), "str": lambda: str(p), "format": lambda: format(p, ""), "f-string": lambda: f"{p}", "%s": lambda: "%s" % (p,),
+                 "%r": lambda: "%r" % (p,), "in-list": lambda: repr([p])[1:-1], "in-dict": lambda: repr({"k": p})[6:-1], "str.format": lambda: "{}".format(p)}
+        for name, fn in forms.items():
+            r = attempt(fn)
+            t.evals += 1
+            t.nontrivial += 1
+            if r != ("ok", want):
+                t.violation({"kind": "bool-text", "form": name}, {"bool_text": True, "built_from": repr(x), "form": name}, expected=want, observed=repr(r[1])[:80],
+                            note="a BoolParameter that is true does not print as True (or a false one not as False)")
+
+
 def check_values(t: Tally, tier="quick"):
     from space_packet_parser import common
     ints, floats, strs, byts = value_sets(tier)
@@ -631,7 +651,7 @@ def run(ctx):
     if not ctx.quick:
         pnames += [f"mul{i}" for i in range(24)]
     t.merge(fan_out(_task_parsed, [{"kinds": ch, "patterns": pnames} for ch in chunked(list(range(nk)), 4)], jobs=ctx.jobs, seed=ctx.seed))
-    for part in (check_values, check_interference, check_packets, check_pairs, check_containers):
+    for part in (check_values, check_bool_text, check_interference, check_packets, check_pairs, check_containers):
         try:
             with case_alarm(1800):
                 if part is check_values:
